@@ -31,8 +31,37 @@ list_paths = econprops.list_paths
 simplifiers = econprops.simplifiers
 
 
+def generate_rerun(seed, S):
+    """A model whose first main() is refused (an exogenous path names a sector that does not exist yet); the caller
+    catches the error, declares the missing sector, uses one of its names, and runs the same Model again."""
+    rng = S['schedule']
+    g = [round(rng.uniform(5, 30), 1) for _ in range(4)]
+    gov_code = rng.choice(['GOV', 'STATE', 'G2'])
+    ops = [{'op': 'Model', 'id': 'm0'},
+           {'op': 'Country', 'id': 'c0', 'model': 'm0', 'code': rng.choice(['C1', 'CA']), 'currency': None},
+           {'op': 'Sector', 'id': 's0', 'country': 'c0', 'code': 'HH', 'has_F': True},
+           {'op': 'AddVariable', 'sector': 's0', 'name': 'C', 'eqn': repr(round(rng.uniform(1, 9), 1))},
+           {'op': 'AddCashFlow', 'sector': 's0', 'term': '-C', 'eqn': None},
+           {'op': 'AddExogenous', 'model': 'm0', 'fullcode': gov_code, 'var': 'G', 'value': g},
+           {'op': 'SetAttr', 'obj': 'm0', 'attr': 'MaxTime', 'value': 2},
+           {'op': 'main', 'model': 'm0'},
+           {'op': 'Sector', 'id': 's1', 'country': 'c0', 'code': gov_code, 'has_F': True},
+           {'op': 'AddVariable', 'sector': 's1', 'name': 'G', 'eqn': '0.0'},
+           {'op': 'GetVariableName', 'sector': 's1', 'var': 'G', 'save_as': 'g_late'},
+           {'op': 'AddCashFlow', 'sector': 's1', 'term': '-G', 'eqn': None}]
+    use = rng.choice(['cashflow', 'variable', 'both'])
+    if use in ('cashflow', 'both'):
+        ops.append({'op': 'AddCashFlow', 'sector': 's0', 'term': '+{name:g_late}', 'eqn': None})
+    if use in ('variable', 'both'):
+        ops.append({'op': 'AddVariable', 'sector': 's0', 'name': 'SHARE', 'eqn': 'C/(1.0 + {name:g_late})'})
+    ops.append({'op': 'main', 'model': 'm0'})
+    return {'kind': 'ECON', 'family': 'rerun_after_refusal', 'ops': ops}
+
+
 def generate(seed, tier):
     S = core.Streams(seed)
+    if S['swarm'].random() < 0.04:
+        return generate_rerun(seed, S)
     fam = S['swarm'].choice(['closed', 'closed', 'closed_fin', 'capitalists', 'pc', 'federated', 'multi_currency',
                              'multi_currency_supply'])
     ops, info = econgen.gen_program(seed, family=fam, tight=False, T=S['knobs'].randint(1, 3))
